@@ -175,6 +175,7 @@ type SpecFunc struct {
 	Body   Expr
 	Macro  bool
 	Opaque bool // definition hidden unless the contract says `reveal name`
+	Axiomatic bool // defined by a quantified axiom (declare-fun + forall) so that applications may occur in patterns
 	Src    string
 	Pkg    string // package of the defining contract file (macros are evaluated in its scope)
 }
